@@ -1,22 +1,216 @@
 //! C18 — the C binding is a faithful projection of the Rust API.
+//!
+//! Parts:
+//!  * `errmap`  — the error-mapping table, exhaustively (see errmap.rs);
+//!  * `diff`    — one generated program (publish-subscribe with generated custom type details,
+//!    fixed-size and slice payloads, optional user header; event), executed through the public
+//!    Rust API in one fresh domain and through the `iox2_*` functions (or, in mixed mode, with
+//!    one node per API on the same services) in another; the normalised traces must be equal,
+//!    failing calls must return the C code of the Rust error, the storage of every C handle must
+//!    be released exactly once, and nothing may be left behind.
 extern crate iceoryx2_bb_loggers;
 
+mod alloc;
+mod api;
+mod c_exec;
 mod errmap;
+mod interp;
+mod prog;
+mod rust_exec;
 
-use vcore::{Ctx, Spec};
+use api::Side;
+use interp::{Out, RunResult, Sides};
+use prog::Program;
+use std::collections::BTreeSet;
+use std::sync::Mutex;
+use vcore::{Ctx, Failure, Obs, Spec};
+
+#[global_allocator]
+static GLOBAL: alloc::Tracking = alloc::Tracking;
 
 const SPEC: Spec = Spec {
     prop: "C18",
     level: "exploration",
-    rule: "wip",
-    assumptions: &[],
+    rule: "diff: proptest programs (<= 40 generated calls after an optional start-up sequence; alphabet: create/drop node, create/open/open_or_create publish-subscribe and event services from a base specification or a one-field variant of it, create/drop publisher/subscriber/notifier/listener with generated settings, loan(n), write, send, drop loan, send_copy / send_slice_copy, receive, read, drop sample, has_samples, update_connections, notify, notify(id), try_wait; custom payload type details size 1..256 / alignment 2^0..2^6, fixed-size and slice, optional user header) executed through the Rust API and through the C API (mode 0) or with the two nodes on different APIs sharing the services (modes 1/2), ipc or local; oracle = equal normalised traces call by call (success/failure, C code == __verif_into_c_int(Rust error), static configuration read back, number_of_elements, byte counts, payload and user-header bytes, origin publisher, alignment of the pointers, send/notify counts, event ids), equal end-of-program probes (loan to exhaustion, deliveries, events, port counts), exact release of every C handle's storage (tracking allocator, double frees included) and equal (empty) leftovers. errmap: every value of every Rust enum with an IntoCInt impl against the harness's own table. Non-trivial (diff) = the program contained >= 1 failing call and a delivered payload > 8 bytes with alignment > 8, or ran in mixed mode with >= 1 delivery between the two APIs; (errmap) every row. Distinct = hash of the program / row index.",
+    assumptions: &[
+        "single-threaded programs; both executors use the thread-safe service variants the C binding uses (ipc_threadsafe / local_threadsafe)",
+        "the Rust executor uses the custom-payload markers (CustomPayloadMarker / CustomHeaderMarker with explicit type details), i.e. the Rust API surface the binding projects; typed Rust payloads are not part of the comparison",
+        "slice_len != 1 is requested only from slice (dynamic) services (documented precondition of the custom loan); a loan is always written completely before it is sent",
+        "zero limits and zero-length loans are not generated (the slice builder does not clamp zero limits: known finding of C08)",
+        "request-response, blackboard, wait-set, attributes, node listing / cleanup, service listing, config accessors, port names / ids (other than the publisher id of a sample), deadlines and blocking waits of the C API are not exercised by the diff part",
+    ],
     watchdog_quick_s: 1800,
     watchdog_thorough_s: 14400,
 };
 
+/// `iox2_publisher_send_copy` / `send_slice_copy` return the `iox2_loan_error_e` code of a failed
+/// loan although they are documented to return `iox2_send_error_e`
+const SIG_SEND_COPY: &str = "diff.errcode.SendCopy.loan_error_code_instead_of_send_error_code";
+
+static NAMES: Mutex<BTreeSet<&'static str>> = Mutex::new(BTreeSet::new());
+
+/// class names have to be `&'static str`; the set of error names is small and bounded
+fn intern(s: String) -> &'static str {
+    let mut g = NAMES.lock().unwrap();
+    if let Some(x) = g.get(s.as_str()) {
+        return x;
+    }
+    let l: &'static str = Box::leak(s.into_boxed_str());
+    g.insert(l);
+    l
+}
+
+fn loan_code(name: &str) -> Option<i32> {
+    use iceoryx2::port::LoanError::*;
+    use iceoryx2_ffi_c::__verif_into_c_int as c;
+    Some(match name {
+        "SendError::LoanError(OutOfMemory)" => c(OutOfMemory),
+        "SendError::LoanError(ExceedsMaxLoans)" => c(ExceedsMaxLoans),
+        "SendError::LoanError(ExceedsMaxLoanSize)" => c(ExceedsMaxLoanSize),
+        "SendError::LoanError(InternalFailure)" => c(InternalFailure),
+        _ => return None,
+    })
+}
+
+struct Verdict {
+    /// tolerated divergences covered by open known findings (signature, message)
+    known: Vec<(String, String)>,
+}
+
+fn short(o: &Out) -> String {
+    let s = format!("{o:?}");
+    if s.len() > 400 { format!("{}…", &s[..400]) } else { s }
+}
+
+fn compare(reference: &RunResult, sut: &RunResult, what_sut: &str, tolerate_send_copy: bool) -> Result<Verdict, Failure> {
+    let mut known = vec![];
+    let n = reference.entries.len().max(sut.entries.len());
+    for i in 0..n {
+        let (Some(a), Some(b)) = (reference.entries.get(i), sut.entries.get(i)) else {
+            return Err(Failure::new("diff.trace.length", format!("the traces have different lengths ({} vs {})", reference.entries.len(), sut.entries.len())));
+        };
+        if a.out == b.out {
+            continue;
+        }
+        let kind = a.kind;
+        match (&a.out, &b.out) {
+            (Out::Err(x), Out::Err(y)) => {
+                let name = a.err_name.clone().unwrap_or_default();
+                if (kind == "SendCopy" || kind == "probe.send_copy") && loan_code(&name) == Some(*y) {
+                    let msg = format!("{}: Rust {name} = code {x}; {what_sut} returned {y}, the iox2_loan_error_e code of the inner loan error", a.what);
+                    if tolerate_send_copy {
+                        known.push((SIG_SEND_COPY.to_string(), msg));
+                        continue;
+                    }
+                    return Err(Failure::new(SIG_SEND_COPY, msg));
+                }
+                return Err(Failure::new(format!("diff.errcode.{kind}"), format!("{}: the Rust API failed with {name} = C code {x}, {what_sut} returned {y}", a.what)));
+            }
+            (Out::Err(x), o) => {
+                return Err(Failure::new(format!("diff.outcome.{kind}"), format!("{}: the Rust API failed with {} (code {x}), {what_sut} succeeded: {}", a.what, a.err_name.clone().unwrap_or_default(), short(o))));
+            }
+            (o, Out::Err(y)) => {
+                return Err(Failure::new(format!("diff.outcome.{kind}"), format!("{}: the Rust API succeeded ({}), {what_sut} failed with code {y}", a.what, short(o))));
+            }
+            (x, y) => {
+                return Err(Failure::new(format!("diff.trace.{kind}"), format!("{}: Rust API: {} / {what_sut}: {}", a.what, short(x), short(y))));
+            }
+        }
+    }
+    if let Some((sig, msg)) = sut.problems.first() {
+        return Err(Failure::new(format!("diff.{sig}"), msg.clone()));
+    }
+    if let Some((addr, size)) = sut.double_free {
+        return Err(Failure::new("diff.handle.double_free", format!("a block of {size} bytes at {addr:#x} allocated during the run was released twice")));
+    }
+    Ok(Verdict { known })
+}
+
+fn check_alignment(r: &RunResult, p: &Program, who: &str) -> Result<(), Failure> {
+    // absolute: a payload whose size is a multiple of its alignment is handed out aligned
+    for e in &r.entries {
+        let (pa, ha) = match &e.out {
+            Out::Loan { payload_aligned, header_aligned, .. } => (*payload_aligned, *header_aligned),
+            Out::Recv(Some(rx)) => (rx.payload_aligned, rx.header_aligned),
+            _ => continue,
+        };
+        let sane = p.ps.iter().all(|s| s.payload.size % s.payload.align == 0 && s.user_header.as_ref().map(|h| h.size % h.align == 0).unwrap_or(true));
+        if sane && !(pa && ha) {
+            return Err(Failure::new("diff.alignment", format!("{who}: {}: payload aligned: {pa}, user header aligned: {ha}", e.what)));
+        }
+    }
+    Ok(())
+}
+
+fn diff_case(p: &Program, obs: &mut Obs, tolerate_send_copy: bool) -> Result<(), Failure> {
+    let sides = match p.mode {
+        0 => Sides([Side::C, Side::C]),
+        1 => Sides([Side::C, Side::Rust]),
+        _ => Sides([Side::Rust, Side::C]),
+    };
+    let what = match p.mode {
+        0 => "the C API",
+        1 => "the mixed run (node 1: C, node 2: Rust)",
+        _ => "the mixed run (node 1: Rust, node 2: C)",
+    };
+    let reference = interp::run(p, Sides([Side::Rust, Side::Rust]));
+    let sut = interp::run(p, sides);
+    // ---- classes / non-triviality (from the reference run and the run under test) ----
+    obs.class(match p.mode {
+        0 => "mode.all_c",
+        1 => "mode.mixed_c_first",
+        _ => "mode.mixed_rust_first",
+    });
+    obs.class(if p.local { "service_type.local" } else { "service_type.ipc" });
+    let mut failing = 0;
+    for e in &reference.entries {
+        if let (Out::Err(_), Some(n)) = (&e.out, &e.err_name) {
+            failing += 1;
+            obs.class(intern(format!("fails.{}.{}", e.kind, n)));
+        }
+        match &e.out {
+            Out::Recv(Some(rx)) => {
+                obs.class("delivered.sample");
+                if rx.number_of_elements > 1 {
+                    obs.class("delivered.slice_of_several_elements");
+                }
+                if !rx.user_header.is_empty() {
+                    obs.class("delivered.with_user_header");
+                }
+            }
+            Out::Events { ids, .. } if !ids.is_empty() => obs.class("delivered.event"),
+            Out::PsService(_) => obs.class("service.pub_sub"),
+            Out::EvService(_) => obs.class("service.event"),
+            Out::Leftovers(l) if !l.is_empty() => obs.class("leftovers_in_reference_run"),
+            _ => {}
+        }
+    }
+    if failing > 0 {
+        obs.class("has_failing_call");
+    }
+    if reference.big_aligned_delivered {
+        obs.class("delivered.payload_gt8_align_gt8");
+    }
+    if sut.cross_deliveries > 0 {
+        obs.class("delivered.between_c_and_rust");
+    }
+    obs.nontrivial = (failing > 0 && reference.big_aligned_delivered) || (p.mode != 0 && sut.cross_deliveries > 0);
+    // ---- oracle ----
+    let v = compare(&reference, &sut, what, tolerate_send_copy)?;
+    check_alignment(&sut, p, what)?;
+    if let Some((sig, msg)) = v.known.into_iter().next() {
+        // counted as a hit of the open known finding; everything else in this case was compared
+        return Err(Failure::new(sig, msg));
+    }
+    Ok(())
+}
+
 fn body(ctx: &mut Ctx) {
     checks_ice::silence_iceoryx_log();
     errmap::part(ctx);
+    let tolerate = ctx.is_open_finding(SIG_SEND_COPY);
+    let cases = ctx.scale(4_000, 120_000);
+    ctx.proptest("diff", cases, prog::program(40), |p, obs| diff_case(p, obs, tolerate));
 }
 
 fn main() {
